@@ -73,6 +73,14 @@ impl Slot {
     }
 }
 
+#[cfg(slotted_egraphs_verif)]
+impl Slot {
+    /// The private `u32` code of this slot (verification hook).
+    pub fn verif_code(self) -> u32 {
+        self.0
+    }
+}
+
 impl Display for Slot {
     fn fmt(&self, f: &mut Formatter<'_>) -> Result {
         let u = self.0;
